@@ -1000,8 +1000,17 @@ func (interp *Interpreter) cfg(root *node, sc *scope, importPath, pkgName string
 				// Allocate a new location in frame, and store the result here.
 				n.findex = sc.add(n.typ)
 			}
-			if n.typ != nil && !n.typ.untyped {
-				fixUntyped(n, sc)
+			switch {
+			case isComparisonAction(n.action):
+				// The result of a comparison is a boolean, which is not the type of its operands:
+				// untyped operand sub-expressions take the type of the other operand, if typed.
+				if t := c0.typ; !t.untyped && !isInterface(t) {
+					fixUntyped(n, t, sc)
+				} else if t := c1.typ; !t.untyped && !isInterface(t) {
+					fixUntyped(n, t, sc)
+				}
+			case n.typ != nil && !n.typ.untyped:
+				fixUntyped(n, n.typ, sc)
 			}
 
 		case indexExpr:
@@ -2333,14 +2342,18 @@ func (interp *Interpreter) cfg(root *node, sc *scope, importPath, pkgName string
 }
 
 // fixUntyped propagates implicit type conversions for untyped binary expressions.
-func fixUntyped(nod *node, sc *scope) {
+func fixUntyped(nod *node, typ *itype, sc *scope) {
 	nod.Walk(func(n *node) bool {
+		if n != nod && n.kind == binaryExpr && isComparisonAction(n.action) {
+			// The operands of a nested comparison are typed by that comparison.
+			return false
+		}
 		if n == nod || (n.kind != binaryExpr && n.kind != parenExpr) || !n.typ.untyped {
 			return true
 		}
-		n.typ = nod.typ
+		n.typ = typ
 		if n.findex >= 0 {
-			sc.types[n.findex] = nod.typ.frameType()
+			sc.types[n.findex] = typ.frameType()
 		}
 		return true
 	}, nil)
